@@ -1,7 +1,7 @@
 (* ActFacts.v — facts that speak about the written text (Project.tree_to_markdown) and about the
    action providers (Actions.v): the refutations with concrete witnesses, the oracle statement
    for fresh keys, and the lifting of content conservation to the projected blocks. *)
-From IweV Require Import Check_Norm NormFacts TreeOps Actions TreeOpsFacts Check_Act Check_C10.
+From IweV Require Import RelPathFacts Check_Norm NormFacts TreeOps Actions TreeOpsFacts Check_Act Check_C10.
 Local Open Scope string_scope.
 Local Open Scope list_scope.
 
@@ -123,8 +123,30 @@ Lemma append_pre_header_self_terminates :
   append_pre_header 1 (sec 1 "s" []) (sec 1 "s" []) = sec 1 "s" [sec 1 "s" []].
 Proof. reflexivity. Qed.
 
-(* cross-directory inline: the inline link of the inlined note is written as it was, and from the
-   new directory it names another note *)
+(* cross-directory inline (F-C09-cross-dir-inline, repaired): the inlined note's tree holds its inline links by
+   KEY, and the projector writes them relative to the note they are written INTO; what is written resolves, from
+   that note's directory, to the same key - for every key and directory made of legal names, either extension
+   (RelPathFacts.roundtrip_written, C15).  In the pinned tree the link was copied as typed and named another note
+   from the new directory ([inline_cross_dir_link]: `c` typed in d/ is d/c, in the root it is c). *)
 Lemma inline_cross_dir_link :
   let url := "c" in from_rel_link_url url "d" = "d/c" /\ from_rel_link_url url "" = "c".
 Proof. cbv zeta. split; vm_compute; reflexivity. Qed.
+
+Theorem inline_cross_dir_kept ks ds ext title lt l :
+  Forall RelPathFacts.good_name ks -> Forall RelPathFacts.good_name ds -> ext = MD \/ ext = "" ->
+  let K := join SEPS ks in let D := join SEPS ds in
+  is_ref_url K = true ->
+  rel_inline D (Link K title lt l) = Link (to_rel_link_url K D) title lt (map (rel_inline D) l) /\
+  from_rel_link_url (ref_url (to_rel_link_url K D) ext) D = K.
+Proof.
+  intros Hk Hd He K D Hr. split.
+  - cbn [rel_inline]. now rewrite Hr.
+  - now apply RelPathFacts.roundtrip_written.
+Qed.
+
+(* the witness of the finding: `[c](c)` of d/b, inlined into the root note a, is written `[c](d/c)` and still
+   names d/c *)
+Example inline_cross_dir_witness :
+  rel_inline (key_parent "a") (to_ginline (key_parent "d/b") (Link "c" "" Regular [Str "c"])) = Link "d/c" "" Regular [Str "c"] /\
+  from_rel_link_url "d/c" (key_parent "a") = from_rel_link_url "c" (key_parent "d/b").
+Proof. split; vm_compute; reflexivity. Qed.
